@@ -75,7 +75,7 @@ theorem validFrom_le : ∀ (al : Alignment) (i j m p : Nat), validFrom al i j = 
 theorem pl_left_minus (c : Counters) (h : c.left ≤ usizeMax) :
     paintLine true c .minus (some .left) = .ok (c, some ⟨true, false, some c.left, none⟩) := by
   simp [paintLine, linenumbersAndStyles, lookupArm, numberArms, St.code, incrementFor, incrementRule,
-    panelCode, bumpN, addUsize, h, emitFor, lookupEmit, emitArms]
+    panelCode, bumpN, addUsize, addUsizeSat, h, emitFor, lookupEmit, emitArms]
 
 theorem pl_left_minusWrapped (c : Counters) :
     paintLine true c .minusWrapped (some .left) = .ok (c, some ⟨true, false, none, none⟩) := by
@@ -86,12 +86,12 @@ theorem pl_left_minusWrapped (c : Counters) :
 theorem pl_left_plus (c : Counters) (h : c.right ≤ usizeMax) :
     paintLine true c .plus (some .left) = .ok (c, some ⟨true, false, none, some c.right⟩) := by
   simp [paintLine, linenumbersAndStyles, lookupArm, numberArms, St.code, incrementFor, incrementRule,
-    panelCode, bumpN, addUsize, h, emitFor, lookupEmit, emitArms]
+    panelCode, bumpN, addUsize, addUsizeSat, h, emitFor, lookupEmit, emitArms]
 
 theorem pl_right_plus (c : Counters) (h : c.right + 1 ≤ usizeMax) :
     paintLine true c .plus (some .right) = .ok (⟨c.left, c.right + 1⟩, some ⟨false, true, none, some c.right⟩) := by
   simp [paintLine, linenumbersAndStyles, lookupArm, numberArms, St.code, incrementFor, incrementRule,
-    panelCode, bumpN, addUsize, h, emitFor, lookupEmit, emitArms]
+    panelCode, bumpN, addUsize, addUsizeSat, h, emitFor, lookupEmit, emitArms]
 
 theorem pl_right_plusWrapped (c : Counters) :
     paintLine true c .plusWrapped (some .right) = .ok (c, some ⟨false, true, none, none⟩) := by
@@ -103,7 +103,7 @@ theorem pl_right_plusWrapped (c : Counters) :
 theorem pl_right_minus (c : Counters) (h : c.left + 1 ≤ usizeMax) :
     paintLine true c .minus (some .right) = .ok (⟨c.left + 1, c.right⟩, some ⟨false, true, some c.left, none⟩) := by
   simp [paintLine, linenumbersAndStyles, lookupArm, numberArms, St.code, incrementFor, incrementRule,
-    panelCode, bumpN, addUsize, h, emitFor, lookupEmit, emitArms]
+    panelCode, bumpN, addUsize, addUsizeSat, h, emitFor, lookupEmit, emitArms]
 
 /-! ### one row of the loop, by the states found at its indices -/
 
@@ -116,7 +116,7 @@ theorem row_pair_first (l r i j : Nat) (sl sr : List St)
     (h1 : l + 1 ≤ usizeMax) (h2 : r + 1 ≤ usizeMax) :
     sbsRow ⟨l, r⟩ sl sr (some i) (some j) = .ok (⟨l + 1, r + 1⟩, ⟨some ⟨true, false, some l, none⟩, some ⟨false, true, none, some r⟩⟩) := by
   simp [sbsRow, lookupSt, hl, hr, pl_left_minus ⟨l, r⟩ (by simp; omega), pl_right_plus ⟨l, r⟩ (by simpa using h2),
-      applyFix, fixLookup, sbsFixArms, patMatch, St.code, addUsize, h1]
+      applyFix, fixLookup, sbsFixArms, patMatch, St.code, addUsize, addUsizeSat, h1]
 
 theorem row_pair_first_shown (l r : Nat) : ((⟨some ⟨true, false, some l, none⟩, some ⟨false, true, none, some r⟩⟩ : SbsRow)).shown = some (some l, some r) := by
   simp [SbsRow.shown, Cell.left, Cell.right]
@@ -126,7 +126,7 @@ theorem row_pair_minus_first (l r i j : Nat) (sl sr : List St)
     (hl : sl[i]? = some .minus) (hr : sr[j]? = some .plusWrapped) (h1 : l + 1 ≤ usizeMax) :
     sbsRow ⟨l, r⟩ sl sr (some i) (some j) = .ok (⟨l + 1, r⟩, ⟨some ⟨true, false, some l, none⟩, some ⟨false, true, none, none⟩⟩) := by
   simp [sbsRow, lookupSt, hl, hr, pl_left_minus ⟨l, r⟩ (by simp; omega), pl_right_plusWrapped,
-      applyFix, fixLookup, sbsFixArms, patMatch, St.code, addUsize, h1]
+      applyFix, fixLookup, sbsFixArms, patMatch, St.code, addUsize, addUsizeSat, h1]
 
 theorem row_pair_minus_first_shown (l r : Nat) : ((⟨some ⟨true, false, some l, none⟩, some ⟨false, true, none, none⟩⟩ : SbsRow)).shown = some (some l, none) := by
   simp [SbsRow.shown, Cell.left, Cell.right]
